@@ -49,8 +49,8 @@ def main():
             "guard": "vls_verif",
             "enable": "RUSTFLAGS=\"--cfg vls_verif\" (set by tools/lib.py when it builds the harness against /repo)",
             "baseline_off_cmd": "cd /repo && cargo test --workspace --no-fail-fast --offline",
-            "source_commits": [],
-            "add_only": True,
+            "source_commits": ["bf60549"],
+            "add_only": False,
         },
         "engines": [{"name": "coq+harness", "path": "/verif/tools/verif.py",
                      "serves_properties": sorted(CHECKS),
